@@ -91,6 +91,12 @@ theorem del_fields : ∀ k : Fin 16,
   obtain ⟨v, hv⟩ := Option.isSome_iff_exists.mp h1
   exact ⟨v.toNat, by rw [hv, Int.toNat_of_nonneg (h2 v hv)]⟩
 
+/-- LoRaWAN 1.0.x JoinAccept RxDelay: 0 and 1 both mean one second, 2..15 that many seconds
+(`del_to_delay_ms` as regenerated for this unit, for every nibble) -/
+theorem rx_delay_values : ∀ k : Fin 16,
+    Gen.OtaaFn.del_to_delay_ms (k.val : Int) = some ((max 1 k.val * 1000 : Nat) : Int) := by
+  decide +kernel
+
 theorem toOption_bind {α β} (x : M α) (f : α → M β) :
     (x >>= f).toOption = x.toOption.bind (fun a => (f a).toOption) := by
   cases x <;> rfl
